@@ -1,327 +1,69 @@
-import json, glob, os, re, subprocess, sys, textwrap
-
-sys.path.insert(0, "/tmp/dz")
-from part_sec2 import *
-from part_sec3 import SEC3
-from part_sec4 import AB, SEED
-from part_sec58 import SEC5, SEC8
-
-V = "/verif"
-base = subprocess.run(["git", "-C", V, "show", "011f12b:DESIGN.md"], capture_output=True, text=True, check=True).stdout
-lines = base.split("\n")
-
-F = json.load(open(V + "/known_findings.json"))["findings"]
-MAN = json.load(open(V + "/MANIFEST.json"))
-REGISTERED = {c["property_id"] for c in MAN["checks"]}
-PIDS = ["C%02d" % i for i in range(1, 41)]
+#!/usr/bin/env python3
+"""tools/design_tables.py   regenerate the generated regions of DESIGN.md (between '<!-- BEGIN name -->' and '<!-- END name -->'):
+   seeded-table   from seeded/*/meta.json
+   mutants-table  from mutants/CNN/**.diff
+   findings-count from known_findings.json"""
+import glob, json, os, re, sys
+V = os.path.dirname(os.path.dirname(os.path.abspath(__file__)))
 
 
-def commit_of(e):
-    return (e.get("commit") or "?").split()[0]
+def esc(s):
+    return str(s).replace("|", "\\|").replace("\n", " ").strip()
 
 
-def short(i):
-    return i.split("-", 1)[1]
-
-
-def findings_line(pid):
-    es = [e for e in F if e["property"] == pid]
-    if not es:
-        return "Findings: none."
-    fixed = [e for e in es if e["status"] == "fixed"]
-    pend = [e for e in es if e["status"] == "open" and e.get("pending_fix")]
-    opn = [e for e in es if e["status"] == "open" and not e.get("pending_fix")]
-    parts = []
-    if fixed:
-        bycommit = {}
-        for e in fixed:
-            bycommit.setdefault(commit_of(e), []).append(short(e["id"]))
-        parts.append("fixed in /repo: " + ", ".join("%s (%s)" % ("/".join(v), k) for k, v in bycommit.items()))
-    if pend:
-        parts.append("open with a validated patch in `fixes/` not yet applied: " + ", ".join(short(e["id"]) for e in pend))
-    if opn:
-        parts.append("open: " + ", ".join(short(e["id"]) for e in opn))
-    return "Findings (%d, section 9): " % len(es) + "; ".join(parts) + "."
-
-
-def mutant_files(pid):
-    d = os.path.join(V, "mutants", pid)
-    top = sorted(f for f in os.listdir(d) if f.endswith(".diff")) if os.path.isdir(d) else []
-    subs = {}
-    if os.path.isdir(d):
-        for s in sorted(os.listdir(d)):
-            p = os.path.join(d, s)
-            if os.path.isdir(p):
-                subs[s] = sorted(f for f in os.listdir(p) if f.endswith(".diff"))
-    return top, subs
-
-
-MUT_NOTE = {  # what the builder's notes say about the committed (counted) mutants
-    "C06": "all three caught (notes/C06.md)", "C07": "all caught (notes/C07.md)", "C08": "all caught (notes/C08.md)",
-    "C09": "all caught (notes/C09.md)", "C10": "all caught (notes/C10.md)", "C37": "all caught at quick (notes/C37.md)",
-    "C34": "not recorded; notes/C34.md (written before the folder was reorganised): after the fix `dependencies_two_levels` still applies but is equivalent for the runner, `self_dependency_dropped` stays caught, the mutants of the fixed `tasks.py` were validated by hand (exit 1)",
-}
-
-
-def mutants_line(pid):
-    top, subs = mutant_files(pid)
-    if not top and not subs:
-        return "Mutants: none committed."
-    s = "Mutants (section 11): %d counted" % len(top)
-    if subs:
-        s += "; " + ", ".join("%d under `%s/`" % (len(v), k) for k, v in subs.items())
-    s += "; result: " + MUT_NOTE.get(pid, "not recorded")
-    return s + "."
-
-
-SEEDS = {}
-for p in sorted(glob.glob(V + "/seeded/*/meta.json")):
-    sid = os.path.basename(os.path.dirname(p))
-    SEEDS[sid] = json.load(open(p))
-
-
-def seeded_line(pid):
-    out = []
-    for sid, m in SEEDS.items():
-        if m["property"] == pid:
-            r = m["verified_by_lead"]["result"]
-            if r.startswith("caught"):
-                out.append("%s caught at first run" % sid)
-            else:
-                out.append("%s missed by the first version, caught after strengthening (section 10)" % sid)
-    if not out:
-        return "Seeded change: none recorded under `seeded/`."
-    return "Seeded change: " + "; ".join(out) + "."
-
-
-def nb(text):
-    return re.sub(r"(?<=\d) (?=\d{3}\b)", "\x00", text)
-
-
-def fill(text, **kw):
-    return textwrap.fill(nb(text), 79, break_long_words=False, break_on_hyphens=False, **kw).replace("\x00", " ")
-
-
-def wrap_bullet(text):
-    text = " ".join(text.split())
-    return fill(text, initial_indent="* ", subsequent_indent="  ")
-
-
-def as_built_block(pid):
-    b = [wrap_bullet("**As built.** " + AB[pid])]
-    b.append(wrap_bullet(findings_line(pid)))
-    b.append(wrap_bullet(mutants_line(pid) + " " + seeded_line(pid)))
-    return "\n".join(b)
-
-
-# ---------------------------------------------------------------------------
-# assemble
-
-
-def find(prefix, start=0):
-    for i in range(start, len(lines)):
-        if lines[i].startswith(prefix):
-            return i
-    raise KeyError(prefix)
-
-
-def next_header(i):
-    for j in range(i + 1, len(lines)):
-        if lines[j].startswith("### ") or lines[j].startswith("## ") or lines[j].startswith("-----"):
-            return j
-    return len(lines)
-
-
-def replace_block(prefix, new):
-    global lines
-    i = find(prefix)
-    j = next_header(i)
-    lines = lines[:i] + new.rstrip("\n").split("\n") + [""] + lines[j:]
-
-
-def append_to_block(prefix, new):
-    global lines
-    i = find(prefix)
-    j = next_header(i)
-    k = j
-    while k > i and lines[k - 1].strip() == "":
-        k -= 1
-    lines = lines[:k] + [""] + new.strip("\n").split("\n") + [""] + lines[j:]
-
-
-# status paragraph: after the title line
-i = find("# Verification design")
-lines = lines[: i + 1] + STATUS.rstrip("\n").split("\n") + lines[i + 1 :]
-
-replace_block("### 2.1 Layout", SEC21)
-replace_block("### 2.2 Contract of every check", SEC22)
-append_to_block("### 2.3 Tiers", SEC23_AB)
-append_to_block("### 2.4 Reproducibility", SEC24_AB)
-append_to_block("### 2.4b Scratch space", SEC24B_AB)
-replace_block("### 2.5 Known findings", SEC25)
-for k, v in SEC3.items():
-    append_to_block("### %s " % k, v)
-for pid in PIDS:
-    append_to_block("### %s " % pid, as_built_block(pid))
-
-# section 5: replace whole section (header .. separator)
-i = find("## 5. What this family")
-j = find("-----", i)
-lines = lines[:i] + SEC5.rstrip("\n").split("\n") + [""] + lines[j:]
-
-# section 6 / 7: append
-i = find("## 6. Validating")
-j = find("-----", i)
-k = j
-while lines[k - 1].strip() == "":
-    k -= 1
-lines = lines[:k] + [""] + SEC6_AB.strip("\n").split("\n") + [""] + lines[j:]
-i = find("## 7. Build order")
-j = find("-----", i)
-k = j
-while lines[k - 1].strip() == "":
-    k -= 1
-lines = lines[:k] + [""] + SEC7_AB.strip("\n").split("\n") + [""] + lines[j:]
-
-# section 8: replace to end of file
-i = find("## 8. Corrections")
-lines = lines[:i] + SEC8.rstrip("\n").split("\n") + [""]
-
-# ---------------------------------------------------------------------------
-# section 9
-SEP = "---------------------------------------------------------------------------"
-out = [SEP, "", "## 9. Findings", ""]
-nfixed = sum(e["status"] == "fixed" for e in F)
-nopen = sum(e["status"] == "open" for e in F)
-npend = sum(1 for e in F if e["status"] == "open" and e.get("pending_fix"))
-commits = {commit_of(e) for e in F if e["status"] == "fixed"}
-log = subprocess.run(["git", "-C", "/repo", "log", "--format=%h %s", "722bf2e..HEAD"], capture_output=True, text=True).stdout.strip().split("\n")
-nfixcommits = sum(1 for l in log if l.split(" ", 1)[1].startswith("fix:"))
-logids = [l.split()[0] for l in log]
-unrec = [l for l in log if l.split()[0] not in commits and l.split(" ", 1)[1].startswith("fix:")]
-assert commits <= set(logids), commits - set(logids)
-intro = (
-    "`known_findings.json` holds %d findings, each entered under the triage rule of 2.5 as a genuine defect of ppci reproduced by hand against the real API "
-    "(false alarms are in section 8, not here); %d of them are repaired in /repo by %d `fix:` commits "
-    "(`git -C /repo log --oneline 722bf2e..HEAD` lists %d `fix:` commits%s), %d remain open, %d of those with a patch under "
-    "`fixes/` that is written and validated but not yet applied. "
-    "Several entries record one root cause seen through two properties — C01-F5 = C04-F2 (a67dc84), C02-F3 = C03-F4 = C38-F1 "
-    "(5f5567d), C03-F5 = C28-KF9 (0f700fb), C08-KF4 = C09-KF2 (01acdf6), C10-KF6 = C11-KF3/KF4 (0c5b4e5), C15-KF4/KF5 = "
-    "C28-KF7/KF8, C22-KF8 = C24-KF5 (d9fb398), C27-KF3/KF4 = C28-KF1/KF2, C28-KF5 = C37-KF2 (78b1952); C08-KF1, C08-KF13 and "
-    "C11-KF2 are views of the open C10-KF1/KF2 — so the number of distinct root causes is smaller than the number of entries "
-    "(an exact count is not recorded)."
-    % (len(F), nfixed, len(commits), nfixcommits,
-       "" if not unrec else "; the newest %d — %s — had not yet been recorded against a finding in `known_findings.json` when this section was generated"
-       % (len(unrec), "; ".join("%s \"%s\"" % tuple(l.split(" ", 1)) for l in unrec)),
-       nopen, npend)
-)
-out += fill(intro).split("\n")
-out += [""] + fill("Status column: `fixed <commit>` = repaired by that `fix:` commit in /repo; `open` = defect present in /repo; "
-        "`open, patch pending` = defect present, `fixes/<file>` written and validated, not yet applied. The tables are "
-        "generated from `known_findings.json`; the text is the entry's `what`, cut at about 230 characters.").split("\n") + [""]
-per = {}
-for e in F:
-    per.setdefault(e["property"], []).append(e)
-cnt_line = []
-for pid in PIDS:
-    es = per.get(pid, [])
-    if es:
-        cnt_line.append("%s %d/%d" % (pid, sum(x["status"] == "fixed" for x in es), len(es)))
-out += fill("Fixed/total per property: " + ", ".join(cnt_line) + ". No finding: C12, C20, C33.").split("\n")
-out.append("")
-
-
-def cut(s, n=230):
-    s = " ".join(s.split()).replace("|", "\\|")
-    if len(s) <= n:
-        return s
-    return s[:n].rsplit(" ", 1)[0] + " …"
-
-
-for pid in PIDS:
-    es = per.get(pid, [])
-    if not es:
-        continue
-    reg = "" if pid in REGISTERED else " (check not registered)"
-    out += ["### %s%s" % (pid, reg), "", "| id | finding | status |", "|---|---|---|"]
-    for e in es:
-        if e["status"] == "fixed":
-            st = "fixed %s" % commit_of(e)
-        elif e.get("pending_fix"):
-            st = "open, patch pending (`%s`)" % e.get("fix", "fixes/?")
+def seeded_table():
+    rows = ["| id | what was changed | what it needs to manifest | caught at first run? |", "|---|---|---|---|"]
+    n = first = 0
+    for d in sorted(os.listdir(V + "/seeded")):
+        p = os.path.join(V, "seeded", d, "meta.json")
+        if not os.path.exists(p):
+            continue
+        m = json.load(open(p))
+        res = m.get("verified_by_lead", {}).get("result", "not recorded")
+        n += 1
+        if res.startswith("caught"):
+            first += 1
+            col = "yes"
         else:
-            st = "open"
-        out.append("| %s | %s | %s |" % (e["id"], cut(e["what"]), st))
-    out.append("")
+            col = "no — " + esc(res)
+        rows.append("| %s | %s | %s | %s |" % (d, esc(m.get("summary", ""))[:700], esc(m.get("needs", ""))[:500], col))
+    head = "%d seeded changes are kept; %d were caught by the check as it stood when the change arrived, %d were missed at first and are caught after the strengthening named in the last column.\n" % (n, first, n - first)
+    return head + "\n" + "\n".join(rows)
 
-# ---------------------------------------------------------------------------
-# section 10
-out += [SEP, "", "## 10. Seeded changes and which checks catch them", ""]
-n_first = sum(1 for m in SEEDS.values() if m["verified_by_lead"]["result"].startswith("caught"))
-txt = (
-    "Breaking changes written independently of the checks, one per directory: a realistic edit of /repo "
-    "(`seeded/CNN-k/patch.diff`: a plausible refactoring that violates property CNN only on a narrow class of inputs), a "
-    "`demo.py` that passes on /repo and fails with the patch, and `meta.json`. A change was kept only if the repo's own "
-    "test-suite still passes with it (all %d kept ones: 1400 passed). The lead verified each with `tools/seedcheck.sh CNN` (demo on "
-    "/repo passes, demo with patch fails, repo tests pass, `./check CNN quick` against the patched scratch copy) and recorded "
-    "the outcome in `meta.json` (`verified_by_lead.result`). %d of %d were caught by the check as it stood (first run); %d "
-    "were missed and led to a stronger generator or oracle, after which they are caught. Properties without a directory "
-    "under `seeded/` have no seeded change recorded at the time of writing."
-    % (len(SEEDS), n_first, len(SEEDS), len(SEEDS) - n_first)
-)
-out += fill(txt).split("\n")
-out += ["", "| id | what was changed | what it needs to manifest | caught at first run? |", "|---|---|---|---|"]
-STRENGTH = {
-    "C02-1": "no — the generator's memory idiom stored to `g_obs` between the two stores. Caught after `genir.gen_mem_idiom` gained 'store; load via aliasing pointer / volatile / other type; store' shapes and C02 gained front-end (`gencc` → `c_to_ir`) modules",
-    "C03-1": "no — generated tail-recursive functions always forwarded every parameter. Caught after `genir.wrap_tailrec` passes constants for some parameters",
-    "C24-1": "no — the reference interpreter discards MIN / −1 as undefined. Caught after C24 gained the weak invariant 'an integer result that is returned lies in the range of its type' for operand pairs the reference leaves undefined",
-}
-for sid, m in SEEDS.items():
-    what, needs = SEED[sid]
-    r = m["verified_by_lead"]["result"]
-    if r.startswith("caught"):
-        res = "yes" + (" (5+ violations)" if "5+" in r else "")
+
+def mutants_table():
+    rows = ["| property | counted (must exit 1) | not counted |", "|---|---|---|"]
+    total = 0
+    for pid in ["C%02d" % i for i in range(1, 41)]:
+        d = os.path.join(V, "mutants", pid)
+        counted = sorted(os.path.basename(f) for f in glob.glob(d + "/*.diff"))
+        other = []
+        for sub in sorted(glob.glob(d + "/*/")):
+            fs = sorted(os.path.basename(f) for f in glob.glob(sub + "*.diff"))
+            if fs:
+                other.append("%s/: %s" % (os.path.basename(sub.rstrip("/")), ", ".join("`%s`" % f for f in fs)))
+        total += len(counted)
+        rows.append("| %s | %s | %s |" % (pid, ", ".join("`%s`" % f for f in counted) or "—", "; ".join(other) or "—"))
+    return "\n".join(rows) + "\n\n%d counted mutants in all." % total
+
+
+def findings_count():
+    F = json.load(open(V + "/known_findings.json"))["findings"]
+    by = {}
+    for e in F:
+        by.setdefault(e["property"], [0, 0])[0 if e["status"] == "fixed" else 1] += 1
+    fixed = sum(v[0] for v in by.values())
+    opened = sum(v[1] for v in by.values())
+    return "%d findings recorded: %d fixed in /repo by `fix:` commits, %d open (listed in `known_findings.json`, each with a witness that is replayed at the start of every run)." % (fixed + opened, fixed, opened)
+
+
+GEN = {"seeded-table": seeded_table, "mutants-table": mutants_table, "findings-count": findings_count}
+path = V + "/DESIGN.md"
+s = open(path).read()
+for name, fn in GEN.items():
+    pat = re.compile(r"(<!-- BEGIN %s -->\n).*?(<!-- END %s -->)" % (name, name), re.S)
+    if pat.search(s):
+        s = pat.sub(lambda m: m.group(1) + fn() + "\n" + m.group(2), s)
     else:
-        assert r.startswith("MISSED"), r
-        res = STRENGTH[sid]
-    out.append("| %s | %s | %s | %s |" % (sid, what.replace("|", "\\|"), needs.replace("|", "\\|"), res))
-out.append("")
-
-# ---------------------------------------------------------------------------
-# section 11
-out += [SEP, "", "## 11. Sensitivity mutants", ""]
-txt = (
-    "Per property the committed mutants: small edits of ppci (`-p1` patches against /repo made with `tools/mkmut.py`) that a "
-    "reviewer could miss and that the repo's own test-suite does not catch. For every file listed as *counted*, "
-    "`tools/mutant.sh CNN mutants/CNN/<file>` — scratch copy of /repo, patch applied, `./check CNN quick` with `VERIF_REPO` pointing at "
-    "the copy — **must exit 1**; `tools/mutant_sweep.sh C02 C03 …` runs all `mutants/CNN/*.diff` of the named properties and prints "
-    "one `CNN file: exit=N` line each (sub-folders are not swept). Sub-folders hold patches that are kept for the record but "
-    "do not count: `killed_by_baseline_tests/` (the check catches them, but so does the repo's test-suite, so they prove "
-    "nothing about what the check adds), `equivalent/` (shown not to change behaviour in the property's domain), `stale/` (written "
-    "against code that a later `fix:` commit replaced), `not-counted/` (outside the check's domain; see its README). Where the "
-    "builder's notes state the sweep result it is repeated here; otherwise the result is not recorded in the repository "
-    "(catching every committed mutant is a precondition of registration, HARNESS.md). Mutants from the plan (section 4, "
-    "'Sensitivity') that turned out equivalent or are killed by the baseline tests are named in section 8."
-)
-out += fill(txt).split("\n")
-out += ["", "| property | counted (must exit 1) | not counted | recorded result |", "|---|---|---|---|"]
-for pid in PIDS:
-    top, subs = mutant_files(pid)
-    c = ", ".join("`%s`" % f for f in top) or "—"
-    nc = "; ".join("%s/: %s" % (k, ", ".join("`%s`" % f for f in v)) for k, v in subs.items()) or "—"
-    res = MUT_NOTE.get(pid, "not recorded" if top else "—")
-    out.append("| %s | %s | %s | %s |" % (pid, c, nc, res))
-out.append("")
-tot = sum(len(mutant_files(p)[0]) for p in PIDS)
-none = [p for p in PIDS if not mutant_files(p)[0]]
-out += fill(
-    "%d counted mutants in all at the time of writing. Files named `revert_*` undo a `fix:` commit of /repo: the defect the check once "
-    "found must be found again.%s" % (tot, (" No counted mutant is committed for %s; the sensitivity evidence there is the defects the "
-    "check found and the seeded changes of section 10." % ", ".join(none)) if none else "")).split("\n")
-out.append("")
-
-lines = lines + out
-text = "\n".join(lines)
-text = re.sub(r"\n{3,}", "\n\n", text)
-open(V + "/DESIGN.md", "w").write(text if text.endswith("\n") else text + "\n")
-print("written", len(text.split("\n")), "lines")
+        print("marker missing:", name)
+open(path, "w").write(s)
